@@ -1,5 +1,6 @@
 """U-CEXPR: the EUnary / EBinary / EArray arms of go::compile::compile_cexpr (fragments)."""
 import re
+from units.common import arm_guard
 from vlib.gen import Unit, Fn, Adt, Raw, load_source
 from units.u_dcefx import UNIT as DCE
 
@@ -37,6 +38,8 @@ UNIT = Unit(
     trusted=["FRAGMENTS: three arms of compile_cexpr; compile_imm and tast_ty_to_go_type are stubs with uninterpreted results",
              "what Go's operators do at run time (wrap-around, truncating division, comparison of signed values) is Go's semantics, not verified here"],
     items=goast_types + [
+        arm_guard("crates/compiler/src/go/compile.rs", "compile_cexpr", None, r"match e \{",
+                  ['anf::CExpr::CImm', 'anf::CExpr::EConstr', 'anf::CExpr::ETuple', 'anf::CExpr::EArray', 'anf::CExpr::EMatch', 'anf::CExpr::EIf', 'anf::CExpr::EWhile', 'anf::CExpr::EGo', 'anf::CExpr::EConstrGet', 'anf::CExpr::EUnary', 'anf::CExpr::EBinary', 'anf::CExpr::EToDyn', 'anf::CExpr::EDynCall', 'anf::CExpr::ECall', 'anf::CExpr::EProj']),
         Adt(file=CD, kw="enum", name="BinaryOp", rules=["attrs"]),
         Adt(file=CD, kw="enum", name="UnaryOp", rules=["attrs"]),
         Raw(path="contracts/cexpr.shim.rs"),
